@@ -49,11 +49,15 @@ type MapRef struct {
 	Obj int
 }
 type MapEntry struct {
-	K Value // *Term (Int/Str) or other comparable concrete
-	V Value
+	K       Value // *Term (Int/Str) or other comparable concrete
+	V       Value
+	Present *Term // nil: present; otherwise the entry exists iff Present (open maps, deleted entries)
 }
 type MapObj struct {
-	E []MapEntry // pairwise distinct keys under the path condition
+	E    []MapEntry // pairwise distinct keys under the path condition
+	Open bool       // arbitrary unknown content beyond E (entries are materialised on demand)
+	Tag  string
+	Src  *Term // the text this map was decoded from: its unknown content is a function of (Src, key)
 }
 type IfaceV struct {
 	T types.Type // nil => nil interface
